@@ -7,7 +7,8 @@ IMPL = r"impl<'a, M> RunState<'a, M>"
 M = 'machine::verif_kani::'
 HARNESS_FILES = ['kani/aranya-policy-vm/machine.rs']
 OPS = ['next', 'last', 'pop_empty', 'restoresp_empty', 'end_noblock', 'block', 'add_empty', 'not_empty',
-       'return_nocall', 'exit_normal', 'jump_sym', 'branch_empty', 'call_sym']
+       'return_nocall', 'exit_normal', 'jump_sym', 'branch_empty', 'call_sym',
+       'sub_empty', 'satadd_empty', 'satsub_empty', 'savesp', 'recall_sym', 'extcall_sym', 'serialize_empty', 'deserialize_empty']
 
 SLOW = {'not_empty'}   # 'dup_empty' (Dup on an empty stack) exceeded 25 min / 23 GB of CBMC and is kept unregistered
 
@@ -29,7 +30,7 @@ EXPLANATION = ('Bounded stand-in, not a proof of the property: one Kani harness 
                'program with an empty stack; panics, todo!(), arithmetic overflow and out-of-bounds indexing in the real body are the obligations. '
                'Operands of jump/branch/call targets are fully symbolic.')
 MANIFEST = {
-    'text': 'Bounded: per-opcode no-panic contract of RunState::step for 15 opcode situations on a minimal run state (symbolic jump/call targets). '
+    'text': 'Bounded: per-opcode no-panic contract of RunState::step for 22 opcode situations on a minimal run state (symbolic jump/call targets). '
             'This found the todo!() in Next/Last (fixed); a second defect (MStructSet preallocation from an untrusted count) was found by reading, is fixed, and is beyond what the harnesses reach. It is not a proof over instruction sequences; the evidence lists exactly what is covered.',
     'note': 'Bounded stand-in (category other): one instruction, empty stack, error-returning MachineIO; fmt::format stubbed. Not counted as proved for the property as a whole.',
     'technique': 'Kani bounded contract harnesses (per opcode) + CBMC',
